@@ -203,6 +203,9 @@ func c11GenPlugin(r *simrt.Rand, idx int, limit time.Duration, backendFiles []st
 	case c < 97:
 		p.Kind = "slow"
 		healthyBody()
+		if r.Chance(1, 3) {
+			sc["ignore_sigint"] = true // a stubborn plugin: only a real kill ends it
+		}
 		where := []string{"delay_before_ns", "delay_mid_ns", "delay_after_ns"}[r.Intn(3)]
 		if L > 0 {
 			eps := int64(time.Millisecond) * int64(1+r.Intn(20))
@@ -841,15 +844,15 @@ func c11Check(a *artefacts, tier string, seed uint64, replay string) int {
 		samples = append(samples, "none")
 	}
 	cov := map[string]interface{}{
-		"evaluations":         runs,
-		"distinct_nontrivial": len(distinct),
-		"rule":                "a case = (program, -g configuration(s), 1..3 scripted plugins, --plugin-time-limit, compression env, schedule, map mode) run once in the simulator after a plugin-less baseline; non-trivial = at least one plugin process was started; distinct by (program, configuration, plugin script kinds, limit, compression)",
-		"samples":             samples,
-		"cases":               stats,
-		"faults_fired":        faults,
-		"oracle_reach":        trivia,
-		"simulated_time_ns":   simNanos,
-		"runs_per_hour":       int(float64(runs) / wall * 3600),
+		"evaluations":             runs,
+		"distinct_nontrivial":     len(distinct),
+		"rule":                    "a case = (program, -g configuration(s), 1..3 scripted plugins, --plugin-time-limit, compression env, schedule, map mode) run once in the simulator after a plugin-less baseline; non-trivial = at least one plugin process was started; distinct by (program, configuration, plugin script kinds, limit, compression)",
+		"samples":                 samples,
+		"cases":                   stats,
+		"faults_fired":            faults,
+		"oracle_reach":            trivia,
+		"simulated_time_ns":       simNanos,
+		"runs_per_hour":           int(float64(runs) / wall * 3600),
 		"real_process_crosscheck": map[string]interface{}{"cases": xn, "result": xmsg},
 		"real_vs_stub": map[string]interface{}{
 			"real": []string{"main.main", "sdk.InvokeThriftgo", "args (plugin option parsing)", "generator.Generate (parameter packing, plugin loop, FileManager)", "plugin.external.Execute, Marshal/UnmarshalRequest, include compression, data trailer, UnmarshalResponse", "persist"},
